@@ -58,6 +58,51 @@ def constant_column(ck, prog):
                 else:
                     why = f"`{render(L)[:70]} {edge_rel} {render(R)}` -> Err does not cover a zero standard deviation"
     if not ok_site:
+        # iterator form: std.iter().position/any/find(|s| <test>) and the hit is turned into Err
+        from sa.prov import Resolver, subterms
+        for bb, t in rx.calls():
+            f = t.get("f")
+            if not (f and f["path"].endswith(("Iterator::position", "Iterator::any", "Iterator::find", "Iterator::find_map")) and len(t["args"]) == 2):
+                continue
+            recv = cx.res.operand(t["args"][0])
+            if not contains(recv, IS_STD):
+                continue
+            clo = cx.res.operand(t["args"][1])
+            cb = prog.get(clo[1][len("closure:"):]) if clo[0] == "agg" and clo[1].startswith("closure:") else None
+            if cb is None:
+                continue
+            cr = Resolver(cb).local(0)
+            c = guards._cond(None, cr)
+            if not c:
+                continue
+            is_item = lambda s: s[0] == "arg" and s[1] == 2
+            for (L, R, rel) in ((c[0], c[2], c[1]), (c[2], c[0], guards.FLIP[c[1]])):
+                if not any(is_item(s) for s in subterms(L)):
+                    continue
+                zero_b, eps_b = Zero()(R), IS_EPS(R)
+                if not (zero_b or eps_b):
+                    continue
+                atoms = guards.ATOMS[rel]
+                need = "z" if zero_b else "n"
+                if not (need in atoms and "p" not in atoms):
+                    continue
+                # the hit edge of the search result must return Err
+                dl = t["d"]["l"]
+                for i2, blk in enumerate(rx.blocks):
+                    tt = blk["term"]
+                    if blk["cleanup"] or tt["k"] != "switch" or tt["o"]["k"] not in ("copy", "move"):
+                        continue
+                    st = cx.res.operand(tt["o"])
+                    hit = None
+                    if st[0] == "discr" and any(s[0] == "call" and s[1] == f["path"] for s in subterms(st)):
+                        hit = [d for v, d in tt["targets"] if v == "1"]
+                    elif st[0] == "call" and st[1] == f["path"]:
+                        hit = [tt["otherwise"]]
+                    if hit:
+                        outs = guards.edge_outcomes(rx, i2, hit[0], cx.res)
+                        if guards.outcome_ok(outs, "Err"):
+                            ok_site = (rx.where(bb), f"{f['path'].split('::')[-1]}(|s| `{render(L)[:50]} {rel} {render(R)}`) hit -> Err")
+    if not ok_site:
         ck.violation(rule, inst, rx.path, f"{rx.loc[0]}:{rx.loc[1]}", expected="std(column) == 0 is refused with Err", found=why)
         return
     # fit: on the normalising path rescale_x(x) is called and its Err propagates, before the optimizer is constructed
